@@ -318,6 +318,38 @@ def _sub(name, ops, quick, thorough, max_len=300, long=False):
                examples={'quick': quick, 'thorough': thorough})
 
 
+@st.composite
+def straddle_case_st(draw, tier):
+    """tens of kilobits of filler with a multi-byte pattern planted once or twice across / next to multiples of 1024 bytes (and of 512, 4096 bytes): searches
+    that work through the data in blocks must not lose an occurrence that straddles a block boundary"""
+    nbytes = draw(st.sampled_from([1100, 2100, 3000, 4200, 8300]))
+    fill = draw(st.sampled_from(['00000000', '11111111', '01010101', '00000001']))
+    plen = draw(st.integers(2, 4))
+    pat = ''.join(draw(st.lists(bits_of_len(8), min_size=plen, max_size=plen)))
+    if pat == fill * plen:
+        pat = pat[:-1] + ('1' if pat[-1] == '0' else '0')
+    lead = draw(st.sampled_from([0, 0, 1, 3, 7]))           # bytes before the first block starts to count (the start of the search)
+    block = draw(st.sampled_from([1024, 1024, 1024, 512, 4096, 2048]))
+    spots = []
+    for _ in range(draw(st.integers(1, 2))):
+        k = draw(st.integers(1, max(1, (nbytes - 8) // block)))
+        spots.append(lead + k * block - draw(st.integers(0, plen)))      # 0..plen bytes before the boundary: straddling, or just at / before it
+    data = bytearray(int(fill, 2) for _ in range(nbytes))
+    pb = bytes(int(pat[i:i + 8], 2) for i in range(0, len(pat), 8))
+    for sp in spots:
+        if 0 <= sp <= nbytes - plen:
+            data[sp:sp + plen] = pb
+    bits = ''.join(format(b, '08b') for b in data) + draw(st.sampled_from(['', '', '101']))
+    op = draw(st.sampled_from(['find', 'rfind', 'findall', 'findall', 'in', 'split', 'replace', 'find']))
+    case = {'op': op, 'cls': draw(cls_st), 'data': {'unit': bits, 'n': len(bits)}, 'pat': pat, 'start': draw(st.sampled_from([None, 8 * lead, 8 * lead, 8 * lead + 3])) if lead else None,
+            'end': draw(st.sampled_from([None, None, len(bits), len(bits) - 5])), 'ba': draw(st.sampled_from([True, True, None, False])), 'opt_ba': draw(st.sampled_from([False, True])),
+            'count': draw(st.sampled_from([None, 1, 2, 5])) if op in ('findall', 'split', 'replace') else None, 'pkind': 'obj'}
+    if op == 'replace':
+        case['cls'] = draw(st.sampled_from(MUTABLE))
+        case['new'] = draw(bits_st(max_len=16))
+    return case
+
+
 SUBCHECKS = [
     _sub('find', ['find'], 4000, 80000),
     _sub('rfind', ['rfind'], 4000, 80000),
@@ -329,6 +361,7 @@ SUBCHECKS = [
     _sub('split', ['split'], 4000, 80000),
     _sub('replace', ['replace'], 4000, 80000),
     Sub('C07.big_data', run, strategy=big_case_st, examples={'quick': 300, 'thorough': 5000}),
+    Sub('C07.block_straddle', run, strategy=straddle_case_st, examples={'quick': 1600, 'thorough': 20000}),
     Sub('C07.long_data', run, strategy=lambda tier: case_st(['find', 'rfind', 'findall', 'split', 'replace', 'in'], max_len=17000, long=True),
         examples={'quick': 600, 'thorough': 12000}),
 ]
